@@ -144,10 +144,12 @@ func (s *Server) handleConn(ctx context.Context, conn net.Conn) error {
 		case *pgproto3.Query:
 			start := time.Now()
 			trimmed := trimQuery(m.String)
-			key := cacheKey(trimmed)
+			// Authorize (and cache the decision for) exactly the text that is
+			// forwarded; the truncated form is only for log lines.
+			key := cacheKey(m.String)
 			decision, hit := cache.get(key)
 			if !hit {
-				allowed, reason, topics, showTopics := authorizeQuery(acl, trimmed)
+				allowed, reason, topics, showTopics := authorizeQuery(acl, m.String)
 				decision = cacheDecision{
 					created:    time.Now(),
 					allowed:    allowed,
